@@ -359,6 +359,34 @@ def _hit_branch(fn: ast.FunctionDef) -> list[str]:
     return []
 
 
+def _normalize_key_shape(cr_tree: ast.Module) -> bool:
+    """`normalize_key`: `if len(key) == _KEY_LEN: return key` then `return hashlib.sha256(key).digest()` — an exactly-32-byte
+    key passes through, every other length is a hash of the *whole* key (no slicing, no padding)."""
+    fn = _func(cr_tree, "normalize_key")
+    body = [b for b in fn.body if not (isinstance(b, ast.Expr) and isinstance(b.value, ast.Constant))]
+    if len(body) != 2 or not isinstance(body[0], ast.If) or not isinstance(body[1], ast.Return):
+        return False
+    guard = body[0]
+    return (
+        ast.unparse(guard.test) == "len(key) == _KEY_LEN"
+        and not guard.orelse
+        and len(guard.body) == 1
+        and isinstance(guard.body[0], ast.Return)
+        and ast.unparse(guard.body[0].value) == "key"  # type: ignore[arg-type]
+        and ast.unparse(body[1].value) == "hashlib.sha256(key).digest()"  # type: ignore[arg-type]
+    )
+
+
+def _openers_normalize(cr_tree: ast.Module) -> bool:
+    """`seal_bytes` / `open_bytes` hand `normalize_key(key)` (and nothing else) to the cipher."""
+    ok = []
+    for name in ("seal_bytes", "open_bytes"):
+        fn = _func(cr_tree, name)
+        calls = [n for n in ast.walk(fn) if isinstance(n, ast.Call) and ast.unparse(n.func) in ("_seal", "_open")]
+        ok.append(len(calls) == 1 and len(calls[0].args) >= 2 and ast.unparse(calls[0].args[1]) == "normalize_key(key)")
+    return all(ok)
+
+
 def _cache_shape(st_tree: ast.Module, as_tree: ast.Module) -> dict[str, bool]:
     """How the call-state cache ages its entries.
 
@@ -559,6 +587,11 @@ def nonceLen : Nat := {cc["_NONCE_LEN"]}
 def tagLen : Nat := {cc["_TAG_LEN"]}
 def versionLen : Nat := {cc["_VERSION_LEN"]}
 def minTokenLen : Nat := {cc["_MIN_TOKEN_LEN"]}
+
+/-- `normalize_key`: a key of exactly `keyLen` bytes is used as is, any other length is SHA-256 of the whole key; and
+    `seal_bytes` / `open_bytes` pass exactly `normalize_key(key)` to the cipher — so (SHA-256 collision-free) distinct
+    operator keys are distinct AEAD keys, which is what the symbolic `KeyId` of the model stands for -/
+def normalizeKeyShape : Bool := {str(_normalize_key_shape(cr_tree) and _openers_normalize(cr_tree)).lower()}
 
 /-! `_state_token.py` — plaintext framing -/
 def headerLen : Nat := {c["_HEADER_LEN"]}
